@@ -2,5 +2,6 @@ import Gomjml.Props.C08
 #print axioms Gomjml.Props.C08.C08_history_independent
 #print axioms Gomjml.Props.C08.C08_paths_agree
 #print axioms Gomjml.Props.C08.C08_step_by_step
-#print axioms Gomjml.Props.C08.C08_tree_partial
+#print axioms Gomjml.Props.C08.C08_tree_history_independent
+#print axioms Gomjml.Props.C08.C08_tree_own_store
 #print axioms Gomjml.Props.C08.C08_history_carriers
